@@ -5,6 +5,7 @@ package ir
 
 import (
 	"fmt"
+	"math"
 )
 
 // CloneModuleForOverrides creates a deep enough copy of a module for ProcessOverrides
@@ -375,8 +376,8 @@ func makeOverrideLiteral(module *Module, typeHandle TypeHandle, val float64) Lit
 			scalar := module.Types[typeHandle].Inner.(ScalarType)
 			switch scalar.Kind {
 			case ScalarBool:
-				// NaN converts to false (Rust: f64 → bool is val == 1.0)
-				return Literal{Value: LiteralBool(val == 1.0)}
+				// WebIDL boolean conversion: 0 and NaN are false, every other number is true
+				return Literal{Value: LiteralBool(val != 0 && !math.IsNaN(val))}
 			case ScalarSint:
 				return Literal{Value: LiteralI32(int32(val))}
 			case ScalarUint:
